@@ -331,7 +331,20 @@ func verifH_C04_rules2() {
 			pi.Parameters = append(pi.Parameters, mk("query"))
 		}
 		check()
-		add(mk([]string{"query", "header"}[verifChoose("in", 2)]))
+		switch verifChoose("dupForm", 3) {
+		case 0: // a second inline parameter
+			add(mk([]string{"query", "header"}[verifChoose("in", 2)]))
+		case 1: // the same component parameter referenced twice
+			comp := &Parameter{Name: "cdup", In: "query", Schema: strS()}
+			doc.Components.Parameters["Dup"] = &ParameterRef{Value: comp}
+			add(&ParameterRef{Ref: "#/components/parameters/Dup", Value: comp})
+			check() // once is fine
+			add(&ParameterRef{Ref: "#/components/parameters/Dup", Value: comp})
+		case 2: // a reference and an inline parameter of the same name and location
+			comp := &Parameter{Name: "dup", In: "query", Schema: strS()}
+			doc.Components.Parameters["Dup"] = &ParameterRef{Value: comp}
+			add(&ParameterRef{Ref: "#/components/parameters/Dup", Value: comp})
+		}
 	case 13: // content of a parameter / header holds exactly one media type
 		two := func() Content {
 			return Content{"application/json": &MediaType{Schema: strS()}, "text/plain": &MediaType{Schema: strS()}}
